@@ -2131,13 +2131,17 @@ def layer_time_limit(ck):
                     {"layer": "time-limit", "script": "while true do end", "sent": False, "Gen.luaScriptTimeLimit": 0})
         return
     limit = limit_ms / 1000.0
-    slack = 4.0
+    slack = 10.0
     results = []
     mem_limit = ck.facts.get("memory_limit")
     rep.extra["script_memory_limit_bytes"] = mem_limit
     cases = list(LOOP_SCRIPTS)
-    if mem_limit:
+    if mem_limit and ck.tier != "quick":
+        # the allocating scripts copy gigabytes: how long that takes depends on the machine, so they belong to the thorough tier
         cases += MEMORY_SCRIPTS
+    elif mem_limit:
+        rep.count("time-limit.memory-cases-thorough-tier-only")
+        cases += [x for x in MEMORY_SCRIPTS if x[0] in ("memory-bomb",)][:1]
     elif mem_limit == 0:
         # nothing bounds a script's memory: allocating scripts are not sent; C06 owns that finding (C06-lua-memory-unbounded)
         rep.count("time-limit.memory-cases-not-sent-no-memory-limit")
@@ -2209,7 +2213,7 @@ def layer_time_limit(ck):
         results.append(out)
     # at most 6 dedicated servers at a time (each may hold up to the script memory limit and spins a core): the verdicts
     # must not depend on how loaded the machine is
-    gate = threading.Semaphore(6)
+    gate = threading.Semaphore(4)
 
     def gated(tag, src, must_fail):
         with gate:
